@@ -421,6 +421,20 @@ class C06(Property):
     def evaluate(self, w, c):
         impl, v = w.eval(c, [self.pid])
         res = self.judge(c, impl, v, w)
+        from .engine import impl_request
+        if impl.get("outcome") == "err" and impl.get("stage") == "generate" and res["status"] != "violation" \
+                and c.get("stream", "valid") == "valid" and isinstance(c.get("doc"), dict):
+            # "no trace" includes errors (C06.no_trace): a document whose generation fails must fail in the same way once its
+            # excluded entries are deleted - an error that only an excluded entry causes is a trace of that entry
+            pr = w.d.ask({"op": "prune", "case": {"id": c["id"], "doc": tree.to_proto(c["doc"]), "opts": c["opts"]}})
+            if pr and pr.get("doc") is not None:
+                pruned = from_proto(pr["doc"])
+                impl2 = w.h.run(impl_request(dict(c, doc=pruned, id=c["id"] + ":pruned")))
+                if impl2.get("outcome") == "ok" or (impl2.get("outcome") == "err" and impl2.get("err_kind") != impl.get("err_kind")):
+                    res.update(status="violation", why="generation fails with %s, but the document with the excluded entries deleted gives %s/%s: "
+                               "an excluded entry is visible through an error" % (impl.get("err_kind"), impl2.get("outcome"), impl2.get("err_kind")),
+                               pruned_doc=pruned)
+            return res
         if res["status"] not in ("ok", "corr") or impl.get("outcome") != "ok":
             return res
         # metamorphic part: the document with every excluded entry deleted gives the same outputs
@@ -428,7 +442,6 @@ class C06(Property):
         pruned = from_proto(pr["doc"])
         res["pruned_differs"] = pruned != c["doc"]
         c2 = dict(c, doc=pruned, id=c["id"] + ":pruned")
-        from .engine import impl_request
         impl2 = w.h.run(impl_request(c2))
         e = w.d.ask({"op": "eqmod", "a": impl, "b": impl2})
         if not e["equal"]:
@@ -629,6 +642,27 @@ class C13(Property):
 
     def profile(self, r):
         return Profile(header=1.0, p_offset=0.3, p_classes=0.5, p_toplevel=0.5, p_makerom=0.5, p_settings_field=0.4, p_gp=0.4)
+
+    def extra_cases(self, tier):
+        """the two header options are the document's whether or not it names a place for the header file (the header is also
+        available through `export_symbol_header`): path absent / null / given x type x as_array x both modes"""
+        out = []
+        k = 0
+        for path in ("absent", None, "include/syms.h"):
+            for ty, arr in (("Addr", False), ("u8", True), ("char", False)):
+                for mode in ("normal", "partial"):
+                    st = {"symbols_header_type": ty, "symbols_header_as_array": arr}
+                    if path != "absent":
+                        st["symbols_header_path"] = path
+                    if mode == "partial":
+                        st.update({"partial_scripts_folder": "ps", "partial_build_segments_folder": "pb"})
+                    doc = {"settings": st, "segments": [{"name": "boot", "fixed_vram": 0x80000400, "files": [{"path": "a.o"},
+                                                        {"kind": "linker_offset", "linker_offset_name": "mid", "section": ".data"}]},
+                                                       {"name": "main", "files": [{"path": "b.o"}]}]}
+                    out.append({"id": "hdropt%d" % k, "seed": 70 + k, "stream": "valid", "opts": [], "mode": mode, "version_comment": k % 2 == 0,
+                                "link": False, "doc": doc})
+                    k += 1
+        return out
 
     def tweak(self, r, c):
         dotted_class_names(r, c["doc"], 0.15)
@@ -2128,7 +2162,28 @@ class C09(ImageProperty):
 class C10(ImageProperty):
     pid = "C10"
     title = "vram classes"
-    owns_errors = ("MissingVramClassForSegment",)
+    owns_errors = ("MissingVramClassForSegment", "InvalidFieldCombo", "MissingAnyOfOptionalFields")
+
+    def extra_cases(self, tier):
+        """a class is placed by exactly one of fixed_vram / fixed_symbol / follows_classes: every subset of the three on a class
+        that an emitted segment uses (more than one is refused; none is refused too)"""
+        out = []
+        fields = {"fixed_vram": 0x80100000, "fixed_symbol": "ovl_base", "follows_classes": ["common"]}
+        names = list(fields)
+        for mask in range(8):
+            cls = {"name": "ovl"}
+            for i, f in enumerate(names):
+                if mask >> i & 1:
+                    cls[f] = fields[f]
+            for mode in ("normal", "partial"):
+                st = {"partial_scripts_folder": "ps", "partial_build_segments_folder": "pb"} if mode == "partial" else {}
+                doc = {"settings": st, "vram_classes": [{"name": "common", "fixed_vram": 0x80080000}, cls],
+                       "segments": [{"name": "boot", "fixed_vram": 0x80000400, "files": [{"path": "a.o"}]},
+                                    {"name": "common_a", "vram_class": "common", "files": [{"path": "c.o"}]},
+                                    {"name": "ovl_a", "vram_class": "ovl", "files": [{"path": "o.o"}]}]}
+                out.append({"id": "classcombo%d%s" % (mask, mode[0]), "seed": 60 + mask, "stream": "valid", "opts": [], "mode": mode,
+                            "version_comment": False, "link": False, "doc": doc})
+        return ImageProperty.extra_cases(self, tier) + out
     rule = ("linkable documents with 1-3 classes of the three kinds, follow DAGs whose dependencies precede, members interleaved with "
             "non-members, classes with no or only excluded members, undeclared classes on emitted and on excluded segments, both modes; a third "
             "linked; non-trivial: a class with two members or a follower")
@@ -2340,6 +2395,22 @@ class C11(Property):
         from .engine import impl_request
         implP, v = w.eval(c, [self.pid])
         res = self.judge(c, implP, v, w)
+        if c["id"].startswith("nofolder") and res["status"] in ("ok", "corr") and fs_safe(c):
+            # "missing partial-folder settings are reported as errors" also where only the file exports need the folder: the
+            # script to standard output or to a file, with and without a dependency file
+            for out in (None, "out/script.ld"):
+                for dpath in (False, True):
+                    doc2 = copy.deepcopy(c["doc"])
+                    if dpath:
+                        doc2["settings"].update({"target_path": "rom.elf", "d_path": "rom.d"})
+                    fimpl, fv = eval_files(w, dict(c, doc=doc2, out=out))
+                    if fimpl.get("outcome") in ("panic", "abort", "timeout"):
+                        res.update(status="violation", why="file export %s" % fimpl.get("outcome"))
+                        return res
+                    if fv.get("model_outcome") == "err" and fimpl.get("outcome") == "ok":
+                        res.update(status="violation", why="a missing partial folder is an error for the file exports (%s, %s a dependency file), "
+                                   "but the export reports success" % ("script to a file" if out else "script to standard output", "with" if dpath else "without"))
+                        return res
         if res["status"] not in ("ok", "corr") or implP.get("outcome") != "ok":
             return res
         cn = dict(c, mode="normal", id=c["id"] + ":normal")
@@ -2526,7 +2597,22 @@ class C08(Property):
         # the effective values as the script shows them, segment by segment (ordinary multi-segment scripts): `*` on every
         # input statement iff wildcard_sections, FILL iff fill_value, SUBALIGN iff subalign
         st0 = c["doc"].get("settings") if isinstance(c["doc"].get("settings"), dict) else {}
-        if c["mode"] == "normal" and not (st0 or {}).get("single_segment_mode"):
+        if c["mode"] == "partial" and not (st0 or {}).get("single_segment_mode"):
+            # the per-segment scripts of partial mode: `*` on every input statement iff the segment's wildcard_sections
+            names_p = [sg.get("name") for sg in c["doc"]["segments"]]
+            for seg, eff in zip(c["doc"]["segments"], rr["segments"]):
+                if names_p.count(seg["name"]) > 1:
+                    continue
+                for pname, ptext in impl.get("partials", []):
+                    if pname != seg["name"]:
+                        continue
+                    wrong = [x for x in image.parse_script(ptext) if x["kind"] == "input" and x["wild"] != eff["wildcard_sections"]]
+                    if wrong:
+                        res.update(status="violation", why="segment %s: wildcard_sections is %s but its partial script has `%s(%s%s)`" % (
+                            seg["name"], eff["wildcard_sections"], wrong[0]["path"], wrong[0]["sec"], "*" if wrong[0]["wild"] else ""))
+                        return res
+        if c["mode"] in ("normal", "partial") and not (st0 or {}).get("single_segment_mode"):
+            # (in partial mode this is the main script: the same headers, and one statement per group for the partial object)
             stmts = image.parse_script(impl.get("script") or "")
             text = impl.get("script") or ""
             names = [sg.get("name") for sg in c["doc"]["segments"]]
@@ -2581,6 +2667,12 @@ class C08(Property):
                     doc = {"settings": st, "segments": [seg, {"name": "other", "files": [{"path": "c.o"}]}]}
                     cases.append({"id": "ov%d" % i, "seed": i, "stream": "lattice:override", "doc": doc, "opts": [],
                                   "mode": "normal", "version_comment": False})
+                    if k in ("wildcard_sections", "subalign", "fill_value"):
+                        # what the scripts of partial mode show of these: the main script and the per-segment scripts
+                        docp = copy.deepcopy(doc)
+                        docp["settings"].update({"partial_scripts_folder": "ps", "partial_build_segments_folder": "pb"})
+                        cases.append({"id": "ovp%d" % i, "seed": i, "stream": "lattice:override", "doc": docp, "opts": [],
+                                      "mode": "partial", "version_comment": False})
         return cases
 
 
